@@ -18,6 +18,17 @@ theorem dropWhile_nil_all {α} (p : α → Bool) : ∀ (l : List α), l.dropWhil
       · exact dropWhile_nil_all p l h x hx'
     · simp at h
 
+theorem takeWhile_all {α} (p : α → Bool) : ∀ (l : List α), ∀ x ∈ l.takeWhile p, p x = true
+  | [], x, hx => by simp at hx
+  | a :: l, x, hx => by
+    rw [List.takeWhile_cons] at hx
+    split at hx
+    · rename_i hpa
+      rcases List.mem_cons.mp hx with rfl | hx'
+      · exact hpa
+      · exact takeWhile_all p l x hx'
+    · simp at hx
+
 theorem reorderNonFinal_ends_final (l : List ENode) (h : ∃ n ∈ l, n.nonFinal = false) :
     ∃ b f, reorderNonFinal l = b ++ [f] ∧ f.nonFinal = false := by
   cases hd : l.reverse.dropWhile (·.nonFinal) with
@@ -108,5 +119,34 @@ theorem C05_listed_is_a_rearrangement (l r l0 : List ENode) (h : editAll l = .ok
 example : (match editAll [ { idx := 0 }, { idx := 1 }, { idx := 2, gen := true, inf := true } ] with
     | .ok r => r.map (·.idx)
     | .error _ => []) = [0, 2, 1] := by decide
+
+end Nject
+
+namespace Nject
+
+/-- **the NonFinal adjustment moves one provider and nothing else**: either every provider is NonFinal and the list stays as
+    it is, or the list is `pre ++ f :: tail` with `f` the last provider not marked NonFinal, and becomes `pre ++ tail ++ [f]`:
+    all others keep their listed order -/
+theorem C05_NonFinal_moves_only_the_final (l : List ENode) :
+    ((∀ n ∈ l, n.nonFinal = true) ∧ reorderNonFinal l = l) ∨
+    ∃ pre f tail, l = pre ++ f :: tail ∧ f.nonFinal = false ∧ (∀ x ∈ tail, x.nonFinal = true) ∧
+      reorderNonFinal l = pre ++ tail ++ [f] := by
+  cases hd : l.reverse.dropWhile (·.nonFinal) with
+  | nil =>
+    left
+    refine ⟨fun n hn => dropWhile_nil_all _ _ hd n (by simpa using hn), ?_⟩
+    simp [reorderNonFinal, hd]
+  | cons f before =>
+    right
+    obtain ⟨h1, h2⟩ := C18_reorderNonFinal_last l before f hd
+    have h3 := @List.takeWhile_append_dropWhile _ (fun (x : ENode) => x.nonFinal) l.reverse
+    rw [hd] at h3
+    have hl : l = before.reverse ++ f :: (l.reverse.takeWhile (·.nonFinal)).reverse := by
+      have := congrArg List.reverse h3
+      simpa using this.symm
+    refine ⟨before.reverse, f, (l.reverse.takeWhile (·.nonFinal)).reverse, hl, h2, ?_, h1⟩
+    intro x hx
+    have hx' : x ∈ l.reverse.takeWhile (·.nonFinal) := by simpa using hx
+    exact takeWhile_all _ _ x hx'
 
 end Nject
